@@ -4,7 +4,7 @@ use std::path::Path;
 use std::time::Duration;
 
 use clap::Parser;
-use zerv::cli::{Cli, Commands, run_check_command, run_flow_pipeline, run_render, run_version_pipeline};
+use zerv::cli::{Cli, Commands, run_flow_pipeline, run_render, run_version_pipeline};
 
 use crate::proc;
 use crate::{PanicInfo, catch};
@@ -42,7 +42,7 @@ pub fn run_cli<S: AsRef<str>>(args: &[S], stdin: Option<&str>) -> Result<Res, Pa
         let r = match cli.command {
             Some(Commands::Version(a)) => run_version_pipeline(*a, stdin),
             Some(Commands::Flow(a)) => run_flow_pipeline(*a, stdin),
-            Some(Commands::Check(a)) => run_check_command(a),
+            Some(Commands::Check(a)) => return match check(&a.version, a.format.as_deref()) { Ok(t) => Res::Ok(t), Err(e) => Res::Err(e) },
             Some(Commands::Render(a)) => run_render(*a),
             None => return Res::Usage("no subcommand".into()),
         };
@@ -51,6 +51,20 @@ pub fn run_cli<S: AsRef<str>>(args: &[S], stdin: Option<&str>) -> Result<Res, Pa
             Err(e) => Res::Err(e.to_string()),
         }
     })
+}
+
+/// `zerv check [--format f] -- <version>` through the application entry point `zerv::cli::app::run_with_args` (the function
+/// `main` calls): the narrowest seam that does not depend on the signature of an internal function. The engine's own stdin
+/// is /dev/null, so the entry point's stdin extraction reads nothing. Ok(report text without the final newline) | Err(error text).
+pub fn check(version: &str, format: Option<&str>) -> Result<String, String> {
+    let mut argv: Vec<String> = vec!["zerv".into(), "check".into()];
+    if let Some(f) = format { argv.push("--format".into()); argv.push(f.into()); }
+    argv.push("--".into()); argv.push(version.into());
+    let mut buf: Vec<u8> = vec![];
+    match zerv::cli::app::run_with_args(argv, &mut buf) {
+        Ok(()) => { let t = String::from_utf8_lossy(&buf).to_string(); Ok(t.strip_suffix('\n').map(|x| x.to_string()).unwrap_or(t)) }
+        Err(e) => Err(e.to_string()),
+    }
 }
 
 /// Run the real binary. stdin None = /dev/null.
